@@ -126,4 +126,5 @@ def run(tier):
                     "restores": [{k: e[k] for k in ("e", "req", "iter", "vtag", "gtag", "htag", "ptag", "cfgeq", "nfreq", "nkeep", "ndir", "exc")}
                                  for e in tr["ev"] if e["e"].startswith("restore")]})
     rep.assumptions = ["bitwise reproducibility across processes on this platform", "small parameterisations of the shipped problems"]
+    rep.extra["machinery_retries"] = list(ckptlib.RETRIES)
     return rep.finish()
